@@ -184,6 +184,7 @@ type CbObs struct {
 	ExeIs  string `json:"exe_is"` // "launcher" | "target" | "other" | "" (classified by path identity only)
 	PPid   string `json:"ppid"`
 	NSpid  string `json:"nspid"`
+	NSpidN []int  `json:"nspidn"` // NSpid as numbers: pid in the caller's namespace first
 	Marker bool   `json:"marker"` // marker file already present at callback time
 	State  string `json:"state"`  // process state letter at callback time
 }
@@ -223,6 +224,7 @@ type Obs struct {
 	Started bool              `json:"started"` // Start returned a pid and no error
 	Err     ErrObs            `json:"err"`
 	HostPid int               `json:"hostpid"`
+	DPid    int               `json:"dpid"`   // the driver's own pid
 	Report  bool              `json:"report"` // the probe's self-report was received
 	Self    Self              `json:"self"`
 	Out     Outside           `json:"out"`
@@ -301,16 +303,17 @@ var allowAll = []syscall.SockFilter{{Code: 0x06, K: 0x7fff0000}}
 
 // plan is everything launchOne needs; built by the C04 / C07 planners.
 type plan struct {
-	c        Case
-	r        *forkexec.Runner
-	req      Req
-	marker   string // host path of the marker file ("" = none)
-	secbits  int    // >= 0: set the launcher thread's securebits to this value first
-	closeFd  []int  // descriptors the planner opened; closed after the launch
-	cbErr    bool
-	cbDelay  time.Duration
-	hold     bool
-	setupErr string
+	c          Case
+	r          *forkexec.Runner
+	req        Req
+	marker     string // host path of the marker file ("" = none)
+	secbits    int    // >= 0: set the launcher thread's securebits to this value first
+	closeFd    []int  // descriptors the planner opened; closed after the launch
+	cbErr      bool
+	cbDelay    time.Duration
+	extraFiles []uintptr
+	hold       bool
+	setupErr   string
 }
 
 func basePlan(e *Env, c Case) *plan {
@@ -493,6 +496,8 @@ func launchLocked(e *Env, p *plan) (ob Obs) {
 	if ob.Req.Groups == nil {
 		ob.Req.Groups = []int{}
 	}
+	ob.DPid = os.Getpid()
+	ob.Cb.NSpidN = []int{}
 	ob.PNS = nsOf("self")
 	ob.PIDs = []int{os.Getuid(), os.Getgid()}
 	g, _ := os.Getgroups()
@@ -530,7 +535,7 @@ func launchLocked(e *Env, p *plan) (ob Obs) {
 	}
 	defer func() { cl(inP[0]); cl(inP[1]); cl(outP[0]); cl(outP[1]) }()
 	if r.Files == nil {
-		r.Files = []uintptr{uintptr(inP[0]), uintptr(outP[1]), 2}
+		r.Files = append([]uintptr{uintptr(inP[0]), uintptr(outP[1]), 2}, p.extraFiles...)
 	}
 	if c.Opt.Sync {
 		r.SyncFunc = func(pid int) error {
@@ -553,6 +558,10 @@ func launchLocked(e *Env, p *plan) (ob Obs) {
 			if b, err := os.ReadFile("/proc/" + ps + "/status"); err == nil {
 				ob.Cb.PPid = statusField(string(b), "PPid")
 				ob.Cb.NSpid = statusField(string(b), "NSpid")
+				for _, f := range strings.Fields(ob.Cb.NSpid) {
+					k, _ := strconv.Atoi(f)
+					ob.Cb.NSpidN = append(ob.Cb.NSpidN, k)
+				}
 				ob.Cb.State = strings.SplitN(statusField(string(b), "State"), " ", 2)[0]
 			}
 			if p.marker != "" {
@@ -560,7 +569,7 @@ func launchLocked(e *Env, p *plan) (ob Obs) {
 				ob.Cb.Marker = err == nil
 			}
 			if p.cbErr {
-				return errors.New("verif: callback refuses")
+				return errors.New("verif-callback-refuses")
 			}
 			return nil
 		}
@@ -636,15 +645,25 @@ func launchLocked(e *Env, p *plan) (ob Obs) {
 	rd := os.NewFile(uintptr(outP[0]), "report")
 	closed[outP[0]] = true
 	defer rd.Close()
-	repCh := make(chan []byte, 1)
+	// The reader goroutine takes the probe's report, looks at /proc/<pid> from outside while the probe
+	// is blocked on its stdin, then releases it.  This (locked) thread meanwhile is the minimal tracer /
+	// job-control parent: it blocks in wait4 and handles every stop until the child is gone.
+	type repRes struct {
+		line []byte
+		out  Outside
+	}
+	repCh := make(chan repRes, 1)
+	stdinW := inP[1]
+	closed[inP[1]] = true // owned by the reader goroutine from here on
 	go func() {
 		line, _ := bufio.NewReaderSize(rd, 32768).ReadBytes('\n')
-		repCh <- line
+		var out Outside
+		if len(line) > 0 {
+			out = outsideOf(pid)
+		}
+		unix.Close(stdinW)
+		repCh <- repRes{line, out}
 	}()
-	deadline := time.Now().Add(20 * time.Second)
-	var rep []byte
-	ended := false
-	gotRep := false
 	handleStop := func(ws unix.WaitStatus) {
 		sig := ws.StopSignal()
 		ev := int(ws>>16) & 0xff
@@ -662,78 +681,48 @@ func launchLocked(e *Env, p *plan) (ob Obs) {
 		unix.Kill(pid, unix.SIGCONT)
 		ob.Stops = append(ob.Stops, fmt.Sprintf("%d:sigcont", int(sig)))
 	}
-	for !ended && !gotRep {
+	killer := time.AfterFunc(20*time.Second, func() { unix.Kill(pid, unix.SIGKILL) })
+	for {
 		var ws unix.WaitStatus
-		wp, werr := unix.Wait4(pid, &ws, unix.WNOHANG|unix.WUNTRACED|unix.WALL, nil)
-		if werr == nil && wp == pid {
-			switch {
-			case ws.Stopped():
-				handleStop(ws)
-			case ws.Exited():
-				ob.Exit = fmt.Sprintf("exit:%d", ws.ExitStatus())
-				ended = true
-			case ws.Signaled():
-				ob.Exit = fmt.Sprintf("signal:%d", int(ws.Signal()))
-				ended = true
-			}
+		wp, werr := unix.Wait4(pid, &ws, unix.WUNTRACED|unix.WALL, nil)
+		if werr == unix.EINTR {
 			continue
-		} else if werr != nil && werr != unix.EINTR {
+		}
+		if werr != nil {
 			ob.Exit = "waiterr:" + werr.Error()
-			ended = true
 			break
 		}
-		select {
-		case rep = <-repCh:
-			gotRep = true
-		case <-time.After(500 * time.Microsecond):
+		if wp == pid && ws.Stopped() {
+			handleStop(ws)
+			continue
 		}
-		if time.Now().After(deadline) {
-			ob.Setup = "timeout waiting for the probe's report"
-			unix.Kill(pid, unix.SIGKILL)
-			break
+		if ws.Exited() {
+			ob.Exit = fmt.Sprintf("exit:%d", ws.ExitStatus())
+		} else if ws.Signaled() {
+			ob.Exit = fmt.Sprintf("signal:%d", int(ws.Signal()))
 		}
+		break
 	}
-	if !gotRep {
-		select {
-		case rep = <-repCh:
-		case <-time.After(2 * time.Second):
-		}
+	if !killer.Stop() {
+		ob.Setup = "timeout: the started program did not end within 20 s"
 	}
-	if len(rep) > 0 {
-		s := emptySelf()
-		if err := json.Unmarshal(rep, &s); err == nil {
-			ob.Self = s
-			ob.Report = true
-		} else {
-			ob.Setup = "bad report: " + err.Error()
+	select {
+	case rr := <-repCh:
+		if len(rr.line) > 0 {
+			sf := emptySelf()
+			if err := json.Unmarshal(rr.line, &sf); err == nil {
+				ob.Self = sf
+				ob.Report = true
+				ob.Out = rr.out
+				if ob.Out.NS == nil {
+					ob.Out.NS = nsMap(func(string) string { return "" })
+				}
+			} else {
+				ob.Setup = "bad report: " + err.Error()
+			}
 		}
-	}
-	if !ended {
-		if ob.Report {
-			ob.Out = outsideOf(pid)
-		}
-		cl(inP[1]) // release the probe
-		var ws unix.WaitStatus
-		for {
-			wp, werr := unix.Wait4(pid, &ws, unix.WALL|unix.WUNTRACED, nil)
-			if werr == unix.EINTR {
-				continue
-			}
-			if werr != nil {
-				ob.Exit = "waiterr:" + werr.Error()
-				break
-			}
-			if wp == pid && ws.Stopped() {
-				handleStop(ws)
-				continue
-			}
-			if ws.Exited() {
-				ob.Exit = fmt.Sprintf("exit:%d", ws.ExitStatus())
-			} else if ws.Signaled() {
-				ob.Exit = fmt.Sprintf("signal:%d", int(ws.Signal()))
-			}
-			break
-		}
+	case <-time.After(5 * time.Second):
+		ob.Setup = "report reader did not finish"
 	}
 	if p.marker != "" {
 		_, e1 := os.Lstat(p.marker)
